@@ -438,12 +438,14 @@ func (c *Classifier) multipleMatch(unknown string) *pq.Queue {
 	wg.Add(len(kvals))
 	for _, known := range kvals {
 		go func(known *knownValue) {
+			// The check and the assignment of the lazily built search set must
+			// both happen under the lock: concurrent MultipleMatch calls share
+			// the knownValue.
+			c.muValues.Lock()
 			if known.set == nil {
-				k := searchset.New(known.normalizedValue, searchset.DefaultGranularity)
-				c.muValues.Lock()
-				c.values[known.key].set = k
-				c.muValues.Unlock()
+				known.set = searchset.New(known.normalizedValue, searchset.DefaultGranularity)
 			}
+			c.muValues.Unlock()
 			m.findMatches(known)
 			wg.Done()
 		}(known)
